@@ -608,6 +608,9 @@ func checkProto(c protoCase) harness.Outcome {
 		return harness.Outcome{Discard: "not a valid portable pattern: " + p.Why}
 	}
 	feat := m10.Analyse(p.Tree)
+	if strings.Contains(c.Flags, "i") {
+		feat.FoldPair = false // with the i flag every literal is folded: nothing to confuse
+	}
 	if feat.EmptyClass && harness.Known(kEmptyClass) {
 		return harness.Outcome{Discard: "empty class (constructor fails)", Excluded: []string{kEmptyClass}}
 	}
